@@ -27,7 +27,7 @@ fn main() {
     let mut threads = std::thread::available_parallelism().map(|n| n.get()).unwrap_or(4).min(16);
     let mut only = None;
     let mut scale = (1u64, 1u64);
-    let mut out_path = format!("/verif/evidence/{}.json", id);
+    let mut out_path = format!("{}/{}.json", std::env::var("VERIF_EVIDENCE_DIR").unwrap_or_else(|_| "/verif/evidence".into()), id);
     let mut write_evidence = true;
     let mut verbose = false;
     let mut budget_s: Option<u64> = None;
